@@ -711,7 +711,7 @@ class SemanticErrorChecker:
         """
         if counting_loop.parallel:
             if len(counting_loop.statements) == 1 and isinstance(counting_loop.statements[0], TaskCall):
-                return True
+                return self.check_task_call(counting_loop.statements[0], task)
             error_msg = "Only a single task is allowed in a parallel loop statement!"
             self.error_handler.print_error(error_msg, context=counting_loop.context)
             return False
